@@ -1,13 +1,810 @@
-// Package c13 is the harness for property C13 (runs the real kapacitor code, prints op lines).
+// Package c13 is the harness for property C13 (formatting / re-serialising a TICKscript never changes the
+// task it defines). It runs the REAL tick/ast parser, Node.Format, the JSON (un)marshalling of AST nodes,
+// pipeline.CreatePipeline, pipeline JSON and pipeline/tick in-process and prints, per case, the op lines
+// together with what the implementation answered.
+//
+// A case is a little register machine over (cur = current AST, txt = current text):
+//
+//	parse <src>      cur := ast.ParseLambda(src).Expression            => ok <dump> | err | panic
+//	build <dump>     cur := the tree spelled out by <dump> (built with struct literals, as pipeline/tick,
+//	                 ValueToLiteralNode or the JSON decoder would)      => ok
+//	fmt              txt := Format(cur)                                  => <text> | panic
+//	reparse          cur := ast.ParseLambda(txt).Expression             => ok <dump> | err | panic
+//	json             cur := Unmarshal(Marshal(lambda(cur))).Expression  => ok <dump> | err | panic
+//	script <src>     cur := ast.Parse(src); txt := src                  => ok <dump> | err | panic
+//	sfmt             txt := ast.Format(cur)                              => <text> | panic
+//	sreparse         cur := ast.Parse(txt)                               => ok <dump> | err | panic
+//	dot <edge>       pipeline.CreatePipeline(txt, edge) → DOT + canonical pipeline JSON
+//	                                                                     => ok <dot> <json> | err | panic
+//	ptick <edge>     txt := Format(pipeline/tick.AST.Build(CreatePipeline(txt)))   => <text> | err | panic
+//	pjson <edge>     p := CreatePipeline(txt); q := Unmarshal(Marshal(p)) → DOT + canonical JSON of q
+//	                                                                     => ok <dot> <json> | err | panic
+//
+// Dumps are prefix token lists (see dumpNode); every string is %XX-escaped.
 package c13
 
 import (
+	"bytes"
+	"encoding/json"
 	"fmt"
 	"os"
+	"regexp"
+	"sort"
+	"strconv"
+	"strings"
+	"time"
+
+	"github.com/influxdata/kapacitor"
+	"github.com/influxdata/kapacitor/pipeline"
+	ptick "github.com/influxdata/kapacitor/pipeline/tick"
+	"github.com/influxdata/kapacitor/tick/ast"
+
+	"verifharness/kit"
 )
 
-// Run is replaced by the property's harness.
-func Run(args []string) int {
-	fmt.Fprintln(os.Stderr, "c13: harness not implemented yet")
-	return 3
+// ---------------------------------------------------------------------------------------------
+// dumps
+
+func fmtFloat(f float64) string {
+	s := strconv.FormatFloat(f, 'f', -1, 64)
+	if !strings.ContainsRune(s, '.') {
+		s += ".0"
+	}
+	return s
 }
+
+func dumpNode(n ast.Node, out *[]string) {
+	add := func(t ...string) { *out = append(*out, t...) }
+	switch x := n.(type) {
+	case nil:
+		add("nil")
+	case *ast.NumberNode:
+		if x.IsInt {
+			add("num", "i", strconv.Itoa(x.Base), strconv.FormatInt(x.Int64, 10))
+		} else {
+			add("num", "f", fmtFloat(x.Float64))
+		}
+	case *ast.DurationNode:
+		add("dur", strconv.FormatInt(int64(x.Dur), 10), kit.Esc(x.Literal))
+	case *ast.BoolNode:
+		if x.Bool {
+			add("bool", "1")
+		} else {
+			add("bool", "0")
+		}
+	case *ast.StringNode:
+		t := "0"
+		if x.TripleQuotes {
+			t = "1"
+		}
+		add("str", t, kit.Esc(x.Literal))
+	case *ast.RegexNode:
+		re := ""
+		if x.Regex != nil {
+			re = x.Regex.String()
+		}
+		add("rx", kit.Esc(re), kit.Esc(x.Literal))
+	case *ast.ReferenceNode:
+		add("ref", kit.Esc(x.Reference))
+	case *ast.IdentifierNode:
+		add("id", kit.Esc(x.Ident))
+	case *ast.StarNode:
+		add("star")
+	case *ast.UnaryNode:
+		add("un", kit.Esc(x.Operator.String()))
+		dumpNode(x.Node, out)
+	case *ast.BinaryNode:
+		p := "0"
+		if x.Parens {
+			p = "1"
+		}
+		add("bin", kit.Esc(x.Operator.String()), p)
+		dumpNode(x.Left, out)
+		dumpNode(x.Right, out)
+	case *ast.FunctionNode:
+		if x.Type == ast.GlobalFunc {
+			add("call", kit.Esc(x.Func), strconv.Itoa(len(x.Args)))
+		} else {
+			add("func", x.Type.String(), kit.Esc(x.Func), strconv.Itoa(len(x.Args)))
+		}
+		for _, a := range x.Args {
+			dumpNode(a, out)
+		}
+	case *ast.LambdaNode:
+		add("lambda")
+		if x == nil {
+			add("nil")
+		} else {
+			dumpNode(x.Expression, out)
+		}
+	case *ast.ListNode:
+		add("list", strconv.Itoa(len(x.Nodes)))
+		for _, a := range x.Nodes {
+			dumpNode(a, out)
+		}
+	case *ast.ChainNode:
+		add("chain", kit.Esc(x.Operator.String()))
+		dumpNode(x.Left, out)
+		dumpNode(x.Right, out)
+	case *ast.DeclarationNode:
+		add("decl")
+		dumpNode(x.Left, out)
+		dumpNode(x.Right, out)
+	case *ast.TypeDeclarationNode:
+		add("typedecl")
+		dumpNode(x.Node, out)
+		dumpNode(x.Type, out)
+	case *ast.DBRPNode:
+		add("dbrp")
+		dumpNode(x.DB, out)
+		dumpNode(x.RP, out)
+	case *ast.CommentNode:
+		add("comment")
+	case *ast.ProgramNode:
+		add("program", strconv.Itoa(len(x.Nodes)))
+		for _, a := range x.Nodes {
+			dumpNode(a, out)
+		}
+	default:
+		add("unknown")
+	}
+}
+
+func dump(n ast.Node) string {
+	var out []string
+	dumpNode(n, &out)
+	return strings.Join(out, " ")
+}
+
+// buildNode constructs a tree from an expression dump the way code that does not go through the parser
+// does (struct literals; no positions, no comments).
+func buildNode(t []string, i *int) (ast.Node, error) {
+	next := func() (string, error) {
+		if *i >= len(t) {
+			return "", fmt.Errorf("short dump")
+		}
+		s := t[*i]
+		*i++
+		return s, nil
+	}
+	str := func() (string, error) {
+		s, err := next()
+		if err != nil {
+			return "", err
+		}
+		return kit.Unesc(s)
+	}
+	k, err := next()
+	if err != nil {
+		return nil, err
+	}
+	switch k {
+	case "num":
+		kind, _ := next()
+		if kind == "i" {
+			b, _ := next()
+			v, _ := next()
+			base, _ := strconv.Atoi(b)
+			iv, err := strconv.ParseInt(v, 10, 64)
+			if err != nil {
+				return nil, err
+			}
+			return &ast.NumberNode{IsInt: true, Int64: iv, Base: base}, nil
+		}
+		v, _ := next()
+		f, err := strconv.ParseFloat(v, 64)
+		if err != nil {
+			return nil, err
+		}
+		return &ast.NumberNode{IsFloat: true, Float64: f}, nil
+	case "dur":
+		v, _ := next()
+		lit, err := str()
+		if err != nil {
+			return nil, err
+		}
+		d, err := strconv.ParseInt(v, 10, 64)
+		if err != nil {
+			return nil, err
+		}
+		return &ast.DurationNode{Dur: time.Duration(d), Literal: lit}, nil
+	case "bool":
+		v, _ := next()
+		return &ast.BoolNode{Bool: v == "1"}, nil
+	case "str":
+		tq, _ := next()
+		lit, err := str()
+		if err != nil {
+			return nil, err
+		}
+		return &ast.StringNode{Literal: lit, TripleQuotes: tq == "1"}, nil
+	case "rx":
+		re, err := str()
+		if err != nil {
+			return nil, err
+		}
+		lit, err := str()
+		if err != nil {
+			return nil, err
+		}
+		r, err := regexp.Compile(re)
+		if err != nil {
+			return nil, err
+		}
+		return &ast.RegexNode{Regex: r, Literal: lit}, nil
+	case "ref":
+		s, err := str()
+		if err != nil {
+			return nil, err
+		}
+		return &ast.ReferenceNode{Reference: s}, nil
+	case "id":
+		s, err := str()
+		if err != nil {
+			return nil, err
+		}
+		return &ast.IdentifierNode{Ident: s}, nil
+	case "star":
+		return &ast.StarNode{}, nil
+	case "un":
+		ops, err := str()
+		if err != nil {
+			return nil, err
+		}
+		op, err := ast.NewTokenType(ops)
+		if err != nil {
+			return nil, err
+		}
+		c, err := buildNode(t, i)
+		if err != nil {
+			return nil, err
+		}
+		return &ast.UnaryNode{Operator: op, Node: c}, nil
+	case "bin":
+		ops, err := str()
+		if err != nil {
+			return nil, err
+		}
+		p, _ := next()
+		op, err := ast.NewTokenType(ops)
+		if err != nil {
+			return nil, err
+		}
+		l, err := buildNode(t, i)
+		if err != nil {
+			return nil, err
+		}
+		r, err := buildNode(t, i)
+		if err != nil {
+			return nil, err
+		}
+		return &ast.BinaryNode{Operator: op, Left: l, Right: r, Parens: p == "1"}, nil
+	case "call":
+		name, err := str()
+		if err != nil {
+			return nil, err
+		}
+		ns, _ := next()
+		n, err := strconv.Atoi(ns)
+		if err != nil || n < 0 || n > 64 {
+			return nil, fmt.Errorf("bad arity")
+		}
+		args := make([]ast.Node, 0, n)
+		for j := 0; j < n; j++ {
+			a, err := buildNode(t, i)
+			if err != nil {
+				return nil, err
+			}
+			args = append(args, a)
+		}
+		return &ast.FunctionNode{Type: ast.GlobalFunc, Func: name, Args: args}, nil
+	}
+	return nil, fmt.Errorf("unknown dump tag %q", k)
+}
+
+// ---------------------------------------------------------------------------------------------
+// pipelines
+
+type deadman struct{}
+
+func (deadman) Interval() time.Duration { return 10 * time.Second }
+func (deadman) Threshold() float64      { return 0 }
+func (deadman) Id() string              { return "deadman" }
+func (deadman) Message() string         { return "msg" }
+func (deadman) Global() bool            { return false }
+
+func edgeOf(s string) pipeline.EdgeType {
+	if s == "batch" {
+		return pipeline.BatchEdge
+	}
+	return pipeline.StreamEdge
+}
+
+func mkPipeline(script, edge string) (*pipeline.Pipeline, error) {
+	p, err := pipeline.CreatePipeline(script, edgeOf(edge), (&kapacitor.TaskMaster{}).CreateTICKScope(), deadman{}, nil)
+	if err != nil && os.Getenv("VERIF_LOG") != "" {
+		fmt.Fprintf(os.Stderr, "CreatePipeline: %v\n--- script:\n%s\n---\n", err, script)
+	}
+	return p, err
+}
+
+// canonJSON renders the pipeline JSON with object keys sorted (encoding/json already does) and compacted.
+func canonJSON(p *pipeline.Pipeline) (string, error) {
+	b, err := json.Marshal(p)
+	if err != nil {
+		return "", err
+	}
+	var v interface{}
+	dec := json.NewDecoder(bytes.NewReader(b))
+	dec.UseNumber()
+	if err := dec.Decode(&v); err != nil {
+		return "", err
+	}
+	c, err := json.Marshal(v)
+	return string(c), err
+}
+
+func pipeObs(p *pipeline.Pipeline) string {
+	j, err := canonJSON(p)
+	if err != nil {
+		return "err:json"
+	}
+	return "ok " + kit.Esc(string(p.Dot("t"))) + " " + kit.Esc(j)
+}
+
+// ---------------------------------------------------------------------------------------------
+// executing a case
+
+func execCase(ops []string) (out []string) {
+	var cur ast.Node
+	txt := ""
+	guard := func(line string, f func() string) {
+		defer func() {
+			if r := recover(); r != nil {
+				if os.Getenv("VERIF_LOG") != "" {
+					fmt.Fprintln(os.Stderr, "panic:", r)
+				}
+				out = append(out, line+" => panic")
+			}
+		}()
+		obs := f()
+		out = append(out, line+" => "+obs)
+	}
+	for _, raw := range ops {
+		line := raw
+		if i := strings.Index(line, " => "); i >= 0 {
+			line = line[:i]
+		}
+		t := strings.Fields(line)
+		if len(t) == 0 {
+			continue
+		}
+		arg := func(i int) string {
+			if i < len(t) {
+				v, _ := kit.Unesc(t[i])
+				return v
+			}
+			return ""
+		}
+		switch t[0] {
+		case "parse":
+			guard(line, func() string {
+				cur = nil
+				l, err := ast.ParseLambda(arg(1))
+				if err != nil {
+					return "err"
+				}
+				cur = l.Expression
+				return "ok " + dump(cur)
+			})
+		case "build":
+			guard(line, func() string {
+				cur = nil
+				i := 1
+				n, err := buildNode(t, &i)
+				if err != nil || i != len(t) {
+					return "err"
+				}
+				cur = n
+				return "ok"
+			})
+		case "fmt":
+			guard(line, func() string {
+				if cur == nil {
+					return "none"
+				}
+				var buf bytes.Buffer
+				cur.Format(&buf, "", false)
+				txt = buf.String()
+				return kit.Esc(txt)
+			})
+		case "reparse":
+			guard(line, func() string {
+				cur = nil
+				l, err := ast.ParseLambda(txt)
+				if err != nil {
+					return "err"
+				}
+				cur = l.Expression
+				return "ok " + dump(cur)
+			})
+		case "json":
+			guard(line, func() string {
+				if cur == nil {
+					return "none"
+				}
+				in := &ast.LambdaNode{Expression: cur}
+				cur = nil
+				b, err := json.Marshal(in)
+				if err != nil {
+					return "err"
+				}
+				var l ast.LambdaNode
+				if err := json.Unmarshal(b, &l); err != nil {
+					return "err"
+				}
+				cur = l.Expression
+				return "ok " + dump(cur)
+			})
+		case "script":
+			guard(line, func() string {
+				cur = nil
+				txt = arg(1)
+				n, err := ast.Parse(txt)
+				if err != nil {
+					return "err"
+				}
+				cur = n
+				return "ok " + dump(cur)
+			})
+		case "sfmt":
+			guard(line, func() string {
+				if cur == nil {
+					return "none"
+				}
+				txt = ast.Format(cur)
+				return kit.Esc(txt)
+			})
+		case "sreparse":
+			guard(line, func() string {
+				cur = nil
+				n, err := ast.Parse(txt)
+				if err != nil {
+					return "err"
+				}
+				cur = n
+				return "ok " + dump(cur)
+			})
+		case "dot":
+			guard(line, func() string {
+				p, err := mkPipeline(txt, arg(1))
+				if err != nil {
+					return "err"
+				}
+				return pipeObs(p)
+			})
+		case "ptick":
+			guard(line, func() string {
+				p, err := mkPipeline(txt, arg(1))
+				if err != nil {
+					return "err"
+				}
+				a := ptick.AST{}
+				if err := a.Build(p); err != nil {
+					return "err:build"
+				}
+				var buf bytes.Buffer
+				a.Program.Format(&buf, "", false)
+				txt = buf.String()
+				return kit.Esc(txt)
+			})
+		case "pjson":
+			guard(line, func() string {
+				p, err := mkPipeline(txt, arg(1))
+				if err != nil {
+					return "err"
+				}
+				b, err := json.Marshal(p)
+				if err != nil {
+					return "err:marshal"
+				}
+				q := &pipeline.Pipeline{}
+				if err := q.Unmarshal(b); err != nil {
+					return "err:unmarshal"
+				}
+				return pipeObs(q)
+			})
+		default:
+			out = append(out, line+" => badop")
+		}
+	}
+	return out
+}
+
+func emit(out *kit.Out, id string, lines []string) {
+	out.Line("case", id)
+	for _, l := range lines {
+		out.Line(l)
+	}
+	out.Line("end")
+}
+
+// ---------------------------------------------------------------------------------------------
+// generators
+
+var binOps = []string{"+", "-", "*", "/", "%", "AND", "OR", "==", "!=", "<", ">", "<=", ">=", "=~", "!~"}
+
+var numPool = []string{"0", "1", "42", "007", "010", "0777", "00", "9007199254740993", "9223372036854775807", "1.0", "1.50", "0.25", ".5", "3.", "100.125", "00.50", "123456789.125"}
+var durPool = []string{"1s", "10ms", "5m", "2h", "1d", "3w", "7u", "9µ", "0s", "90m", "1500ms"}
+var strBodies = []string{"", "a", "cpu", "it's", "a b", "a\\b", "a\\\\b", "tab\there", "é", "x/y", "a\"b", "100%", "'", "\\'", "a''b", "line1\nline2"}
+var tripleBodies = []string{"a", "it's", "a\\", "a\\b", "say 'hi' there", "x\ny", "a''b", "\\"}
+var rxBodies = []string{"a", "^cpu.*$", "a\\/b", "x|y", "[0-9]+", "\\d+\\.\\d+", "a b", "\\/"}
+var refBodies = []string{"a", "value", "cpu usage", "a\\\"b", "x.y", "it's", "a/b", "é", "a\\b"}
+var identPool = []string{"a", "b", "x1", "host", "lambda", "sigma", "f_1", "TRUEx", "ANDy"}
+var funcPool = []string{"sigma", "abs", "count", "f", "if", "int", "strLength"}
+
+type exprGen struct {
+	r *kit.Rand
+}
+
+func (g *exprGen) atom() string {
+	r := g.r
+	switch r.Intn(9) {
+	case 0:
+		return kit.Pick(r, numPool)
+	case 1:
+		return kit.Pick(r, durPool)
+	case 2:
+		if r.Bool() {
+			return "TRUE"
+		}
+		return "FALSE"
+	case 3:
+		if r.Chance(1, 3) {
+			return "'''" + kit.Pick(r, tripleBodies) + "'''"
+		}
+		b := kit.Pick(r, strBodies)
+		// source spelling of a single-quoted literal: escape quotes; a trailing backslash cannot be written
+		b = strings.ReplaceAll(b, "'", "\\'")
+		if strings.HasSuffix(b, "\\") {
+			b += "x"
+		}
+		return "'" + b + "'"
+	case 4, 5:
+		return "\"" + kit.Pick(r, refBodies) + "\""
+	case 6:
+		return kit.Pick(r, identPool)
+	case 7:
+		return kit.Pick(r, numPool)
+	default:
+		return "\"" + kit.Pick(r, refBodies) + "\""
+	}
+}
+
+func (g *exprGen) sp() string {
+	switch g.r.Intn(6) {
+	case 0:
+		return ""
+	case 1:
+		return "  "
+	default:
+		return " "
+	}
+}
+
+func (g *exprGen) primary(d int) string {
+	r := g.r
+	k := r.Intn(10)
+	if d <= 0 && k >= 5 {
+		k = 0
+	}
+	switch {
+	case k < 5:
+		return g.atom()
+	case k < 7:
+		return "(" + g.sp() + g.expr(d-1) + g.sp() + ")"
+	case k < 8:
+		op := "-"
+		if r.Bool() {
+			op = "!"
+		}
+		return op + g.primary(d-1)
+	default:
+		n := r.Intn(4)
+		var args []string
+		for i := 0; i < n; i++ {
+			args = append(args, g.expr(d-1))
+		}
+		s := kit.Pick(r, funcPool) + "(" + strings.Join(args, ","+g.sp())
+		if n > 0 && r.Chance(1, 10) {
+			s += ","
+		}
+		return s + ")"
+	}
+}
+
+func (g *exprGen) expr(d int) string {
+	r := g.r
+	s := g.primary(d)
+	n := 0
+	switch k := r.Intn(10); {
+	case k < 3:
+		n = 0
+	case k < 6:
+		n = 1
+	case k < 8:
+		n = 2
+	default:
+		n = 3 + r.Intn(3)
+	}
+	if d <= 0 && n > 1 {
+		n = 1
+	}
+	for i := 0; i < n; i++ {
+		op := kit.Pick(r, binOps)
+		rhs := g.primary(d)
+		if (op == "=~" || op == "!~") && r.Chance(4, 5) {
+			rhs = "/" + kit.Pick(r, rxBodies) + "/"
+		}
+		// operators need a space before them only where the lexer would otherwise glue (identifier AND)
+		a, b := g.sp(), g.sp()
+		if op == "AND" || op == "OR" {
+			a, b = " ", " "
+		}
+		s += a + op + b + rhs
+	}
+	return s
+}
+
+// random tree that did NOT come from the parser (dump form). Only trees that TICKscript can express:
+// a regex stands to the right of =~ / !~ or as a call argument (the lexer accepts no operator after a regex),
+// durations are whole microseconds, references do not end in a backslash.
+func (g *exprGen) tree(d int, rxOK bool, out *[]string) {
+	r := g.r
+	add := func(t ...string) { *out = append(*out, t...) }
+	k := r.Intn(10)
+	if d <= 0 {
+		k = r.Intn(4)
+	}
+	switch {
+	case k < 4:
+		a := r.Intn(9)
+		if a == 5 && !rxOK {
+			a = 6
+		}
+		switch a {
+		case 0:
+			add("num", "i", "10", kit.Pick(r, []string{"0", "5", "-5", "-1", "9007199254740993", "-9223372036854775807", "123", "9223372036854775807"}))
+		case 1:
+			add("num", "f", kit.Pick(r, []string{"1.5", "-2.5", "0.0", "3.0", "100.125"}))
+		case 2:
+			add("dur", kit.Pick(r, []string{"1000000000", "0", "-60000000000", "1500000", "1000", "3600000000000", "90000000000", "604800000000000"}), "%")
+		case 3:
+			add("bool", kit.Pick(r, []string{"0", "1"}))
+		case 4:
+			add("str", "0", kit.Esc(kit.Pick(r, []string{"a", "", "it's", "a\\", "C:\\dir\\", "a\\'", "it's\\", "\\", "é", "a\\b"})))
+		case 5:
+			re := kit.Pick(r, []string{"a", "a/b", "^x.*$", "a\\/b", "/", "x|y"})
+			lit := "%"
+			if r.Bool() {
+				lit = kit.Esc(strings.ReplaceAll(re, "/", "\\/"))
+			}
+			add("rx", kit.Esc(re), lit)
+		case 6:
+			add("ref", kit.Esc(kit.Pick(r, []string{"a", "a\"b", "cpu usage", "a\\b", "é"})))
+		case 7:
+			add("id", kit.Pick(r, identPool))
+		default:
+			add("ref", kit.Esc(kit.Pick(r, []string{"value", "b"})))
+		}
+	case k < 5:
+		add("un", kit.Esc(kit.Pick(r, []string{"-", "!"})))
+		g.tree(d-1, false, out)
+	case k < 9:
+		p := "0"
+		if r.Chance(1, 4) {
+			p = "1"
+		}
+		op := kit.Pick(r, binOps)
+		add("bin", kit.Esc(op), p)
+		g.tree(d-1, false, out)
+		g.tree(d-1, op == "=~" || op == "!~", out)
+	default:
+		n := r.Intn(3)
+		add("call", kit.Pick(r, funcPool), strconv.Itoa(n))
+		for i := 0; i < n; i++ {
+			g.tree(d-1, true, out)
+		}
+	}
+}
+
+func genExprCase(r *kit.Rand, i int) []string {
+	g := &exprGen{r: r}
+	tail := []string{"fmt", "reparse", "fmt", "reparse", "fmt"}
+	if i%4 == 3 {
+		var t []string
+		g.tree(1+r.Intn(3), false, &t)
+		ops := []string{"build " + strings.Join(t, " ")}
+		if r.Bool() {
+			ops = append(ops, "json")
+		}
+		return append(ops, tail...)
+	}
+	src := g.expr(1 + r.Intn(3))
+	ops := []string{"parse " + kit.Esc(src)}
+	if i%2 == 1 {
+		ops = append(ops, "json")
+	}
+	return append(ops, tail...)
+}
+
+// exhaustive small expressions: all operator pairs / triples with every parenthesisation
+func exhaustiveOps(out *kit.Out, triples bool) {
+	n := 0
+	one := func(src string) {
+		emit(out, fmt.Sprintf("x%d", n), execCase([]string{"parse " + kit.Esc(src), "fmt", "reparse", "fmt"}))
+		n++
+		emit(out, fmt.Sprintf("x%d", n), execCase([]string{"parse " + kit.Esc(src), "json", "fmt", "reparse", "fmt"}))
+		n++
+	}
+	for _, o1 := range binOps {
+		for _, o2 := range binOps {
+			one(fmt.Sprintf("a %s b %s c", o1, o2))
+			one(fmt.Sprintf("(a %s b) %s c", o1, o2))
+			one(fmt.Sprintf("a %s (b %s c)", o1, o2))
+			one(fmt.Sprintf("-(a %s b) %s !c", o1, o2))
+		}
+	}
+	if triples {
+		for _, o1 := range binOps {
+			for _, o2 := range binOps {
+				for _, o3 := range binOps {
+					one(fmt.Sprintf("a %s b %s c %s d", o1, o2, o3))
+					one(fmt.Sprintf("a %s (b %s c) %s d", o1, o2, o3))
+					one(fmt.Sprintf("(a %s b %s c) %s d", o1, o2, o3))
+					one(fmt.Sprintf("a %s (b %s c %s d)", o1, o2, o3))
+				}
+			}
+		}
+	}
+}
+
+// Run: `vh-c13 -seed S -n N [-tier thorough]` generates; `vh-c13 -ops file` re-executes the cases of a file.
+func Run(args []string) int {
+	f := kit.ParseFlags(args)
+	out := kit.NewOut()
+	defer out.Flush()
+	if f.Ops != "" {
+		lines, err := kit.ReadLines(f.Ops)
+		if err != nil {
+			fmt.Fprintln(os.Stderr, err)
+			return 2
+		}
+		var cur []string
+		id := ""
+		for _, l := range lines {
+			t := strings.Fields(l)
+			switch {
+			case len(t) == 2 && t[0] == "case":
+				id, cur = t[1], nil
+			case len(t) == 1 && t[0] == "end":
+				emit(out, id, execCase(cur))
+			default:
+				cur = append(cur, l)
+			}
+		}
+		return 0
+	}
+	r := kit.NewRand(f.Seed)
+	for i := 0; i < f.N; i++ {
+		emit(out, fmt.Sprintf("e%d", i), execCase(genExprCase(r.Fork(), i)))
+	}
+	ns := f.N / 4
+	for i := 0; i < ns; i++ {
+		emit(out, fmt.Sprintf("s%d", i), execCase(genScriptCase(r.Fork(), i)))
+	}
+	exhaustiveOps(out, f.Tier == "thorough")
+	return 0
+}
+
+var _ = sort.Strings
